@@ -203,7 +203,7 @@ func frameCheck(e *Env, sum bool) {
 		r.Explain("Oracle: trailer (last 4 appended bytes, module byte order) == the frame object's Checksum after Encode == own implementation of the exchange algorithm (byte sum mod 256 for SSE/SZSE, bitwise reflected CRC-32 for sample) over exactly the appended bytes from the first header byte through the last body byte — i.e. including the corrected length field and excluding whatever was in the buffer before.")
 	}
 	r.Assume("frame positions come from the pinned schema", "the checksum services are registered under their built-in names (start-up state)")
-	reps := e.N(3, 60)
+	reps := e.N(3, 240)
 	byHist := newFeatAcc()
 	if sum && e.Only == "" {
 		// the process has already used every other codec of the library (a gateway speaks several protocols in
